@@ -83,7 +83,9 @@ theorem derivedFn_wf (env : Env) (self : Bool) (l : List Ref) (name : Bytes) (v 
   unfold derivedFn at h
   split at h
   · simp only [pure, Except.pure, Except.ok.injEq] at h; subst h; trivial
-  all_goals (simp [throw, throwThe, MonadExceptOf.throw] at h)
+  all_goals first
+    | (simp [throw, throwThe, MonadExceptOf.throw] at h; done)
+    | (split at h <;> simp [throw, throwThe, MonadExceptOf.throw] at h)
 
 theorem derefFn_wf (env : Env) (l : List Ref) (v : Value N) (h : derefFn env l = .ok v) : v.WF := by
   unfold derefFn at h
